@@ -3709,6 +3709,12 @@ fn xbytes_gen(rng: &mut Rng) -> Val {
 impl C08 {
     /// the byte loader line with stage tables: `bytes_run` with the pipeline built from the tables
     fn xbytes_run(&self, input: &Val) -> Option<(Val, Vec<String>)> {
+        self.xbytes_run_inner(input, false)
+    }
+
+    /// `dry`: stop after the single-threaded table (used by `gen` to screen out cases in which some pipeline call panics:
+    /// such a case is INVALID for the loader lines, and the runner counts an INVALID generated case as a disagreement)
+    fn xbytes_run_inner(&self, input: &Val, dry: bool) -> Option<(Val, Vec<String>)> {
         let l = input.as_l()?;
         if l.len() != 25 {
             return None;
@@ -3755,6 +3761,9 @@ impl C08 {
                     }
                 }
             }
+        }
+        if dry {
+            return Some((Val::L(vec![]), vec![]));
         }
         let s2 = s.clone();
         let out = with_timeout(20_000, move || {
@@ -3832,7 +3841,16 @@ impl Prop for C08 {
             2 | 3 => return bytes_gen(rng),
             4 => return item_gen(rng),
             5 => return xitem_gen(rng),
-            6 => return xbytes_gen(rng),
+            6 => {
+                // a case in which some pipeline call panics is INVALID for a loader line: screened out here (about 1 in 8 000)
+                for _ in 0..8 {
+                    let v = xbytes_gen(rng);
+                    if self.xbytes_run_inner(&v, true).is_some() {
+                        return v;
+                    }
+                }
+                return mask_gen(rng);
+            }
             7 => return mask_gen(rng),
             _ => return direct_gen(rng),
         }
